@@ -427,7 +427,8 @@ def run_known(rp, kf):
 # ------------------------------------------------------------------------------------------------
 
 THEOREMS = ["Props.C03.C03_parse_render_expr_ext", "Props.C03.C03_parse_render_expr_partial", "Props.C03.C03_refuted_cmp_rhs_primary",
-            "Props.C03.C03_refuted_like_primary", "Props.C03.C03_parse_render_select_partial", "Props.C03.C03_select_refuted_bare_alias"]
+            "Props.C03.C03_refuted_like_primary", "Props.C03.C03_parse_render_select_partial", "Props.C03.C03_parse_render_stmt_partial",
+            "Props.C03.C03_select_refuted_bare_alias"]
 
 
 def run(tier):
